@@ -46,6 +46,15 @@ check('C05',
       'Abstract machine in mc/explore/pda.py mirrors the control part of Machine; bound to it by the concrete conformance run. Recursion cut at 3 active calls on both sides.',
       'DESIGN.md C05')
 
+check('C02',
+      'bounded-exhaustive enumeration of typed expression trees x renderings x value positions vs Python evaluation; exhaustive exploration of the random source\'s answer sequences',
+      'Every typed tree with <=3 operators (thorough: 4 over 8 operators) over the 14 documented operators with prime leaves, every '
+      'single leading-minus / logical-zero variant, every operand kind, in three renderings (minimal, full parentheses, no white space) and '
+      'nine value positions, is compiled and run and must print the Python value of the tree. Built-ins on grids vs their prose. '
+      '[random a b]: ALL answer sequences of getrandbits/random() (choice points) for -3<=a<=b<=8: result set must equal {a..b}.',
+      'Python arithmetic as oracle (true division, **, % on non-negatives); random.Random subclass with choice-point primitives swapped in at bardolph_math.py_random.',
+      'DESIGN.md C02')
+
 NOT_YET = 'check not built yet in this session (design in DESIGN.md); will be claimed when its command exists'
 
 
